@@ -77,7 +77,7 @@ static void prop(Tape &t, Ctx &c) {
             }
             break; }
         }
-        leak.check(fmt("api=%s rc=%d", names[api], rc));
+        C09_LEAK_CHECK(leak, "api=%s rc=%d", names[api], rc);
     }
     if (rc >= 0) c.count(fmt("decoded.%s", names[api]));
     else c.count(pem ? "rejected.pem" : "rejected.other");
